@@ -401,7 +401,7 @@ def gen_C07(rng, tier):
 
 # ----------------------------------------------------------------------------- C02 layering
 LAY_PTS = [None, F(0), F(1), F(2)]
-LAY_VALS = [None, F(1), F(-1), F(2)]
+LAY_VALS = [None, F(1), F(-1), F(2), F(1, 2), F(-3, 2)]
 
 
 def rand_layer_call(rng, r, pts=None, vec=None):
